@@ -1,6 +1,9 @@
 import ArrowModel.Common.Proto
 import ArrowModel.C04.Spec
 import ArrowModel.C04.Model
+import ArrowModel.C04.ArrayModel
+import ArrowModel.C02.Spec
+import ArrowModel.C09.Driver
 /-
 C04 driver: one case per line → one canonical answer per line.
 Answers are computed by the *algorithm model*; where a specification exists the driver also
@@ -66,8 +69,63 @@ def showWire : WireMsg Nat → String
 def showDecoded (bs : List (List (List (Option Nat)))) : String :=
   if bs.isEmpty then "-" else ";".intercalate (bs.map fun b => "+".intercalate (b.map showCol))
 
+/-! ### whole arrays: the C09 dump grammar, with the validity field extended to
+`hex@bitoffset:nullcount` (a `NullBuffer` has a bit offset of its own) -/
+
+open ArrowModel.Physical in
+partial def pArr : ArrowModel.C09.P ArrayData := fun cs => do
+  let (_, r) ← ArrowModel.C09.pChar 'A' cs
+  let (_, r) ← ArrowModel.C09.pChar '(' r
+  let (t, r) ← ArrowModel.C09.pType r
+  let (_, r) ← ArrowModel.C09.pChar ';' r
+  let (len, r) ← ArrowModel.C09.pNat r
+  let (_, r) ← ArrowModel.C09.pChar ';' r
+  let (off, r) ← ArrowModel.C09.pNat r
+  let (_, r) ← ArrowModel.C09.pChar ';' r
+  let (ns, r) ← ArrowModel.C09.pUntil (· == ';') r
+  let (_, r) ← ArrowModel.C09.pChar ';' r
+  let (bs, r) ← ArrowModel.C09.pUntil (· == ';') r
+  let (_, r) ← ArrowModel.C09.pChar ';' r
+  let bufs ← ArrowModel.C09.parseBufs bs
+  let nulls ← (if ns = "-" then some none else
+    match ns.splitOn "@" with
+    | [h, rest] =>
+      match rest.splitOn ":" with
+      | [o, c] => do
+        let b ← ArrowModel.C09.hexE h
+        pure (some { bytes := b, off := (← o.toNat?), len := len, nullCount := (← c.toNat?) : Nulls })
+      | _ => none
+    | _ => none)
+  let rec kids (r : List Char) (acc : List ArrayData) : Option (List ArrayData × List Char) :=
+    match r with
+    | ')' :: r => some (acc.reverse, r)
+    | _ => do
+      let (c, r) ← pArr r
+      kids r (c :: acc)
+  let (cs', r) ← kids r []
+  pure (⟨t, len, off, nulls, bufs, cs'⟩, r)
+
+def hexE (b : List Nat) : String := if b.isEmpty then "e" else toHex b
+
+def showWritten (w : List (Nat × Nat) × List (List Nat)) : String :=
+  s!"nodes={showList (fun n => s!"{n.1}:{n.2}") w.1} bufs={if w.2.isEmpty then "-" else "|".intercalate (w.2.map hexE)}"
+
 def handle (toks : List String) : String :=
   match toks with
+  -- C04 warr <array dump>: field nodes + body buffers of `write_array_data`
+  | ["warr", a] =>
+    match pArr a.toList with
+    | some (d, []) =>
+      if !supportedT d.type then "SKIP" else
+      if !ArrowModel.Physical.wellFormedB d then "ERR:not-wf" else
+      let model := showWritten (writeArray d)
+      -- specification: reading the written column back denotes the same logical column
+      match roundTrip d with
+      | some d' =>
+        if ArrowModel.Physical.decode d' = ArrowModel.Physical.decode d ∧ (ArrowModel.Physical.decode d).isSome then model
+        else s!"MODEL-SPEC-MISMATCH model={model} decode-differs"
+      | none => s!"MODEL-SPEC-MISMATCH model={model} read-failed"
+    | _ => "bad-op"
   -- C04 bytes <w> <wrap> <offsets> <data> <off> <len>
   | ["bytes", _w, _wrap, offs, d, off, len] =>
     match parseList (·.toNat?) offs, parseHex d, off.toNat?, len.toNat? with
